@@ -4,6 +4,7 @@ use solang_parser::pt::{self, Loc};
 use solang_parser::{self, pt::SourceUnit};
 
 use crate::analyzer::ast::{extract_target_from_node, Target};
+use crate::analyzer::utils;
 
 pub fn floating_pragma_vulnerability(source_unit: SourceUnit) -> HashSet<Loc> {
     //Create a new hashset that stores the location of each vulnerability target identified
@@ -18,7 +19,8 @@ pub fn floating_pragma_vulnerability(source_unit: SourceUnit) -> HashSet<Loc> {
         let source_unit_part = node.source_unit_part().unwrap();
 
         if let pt::SourceUnitPart::PragmaDirective(loc, _, pragma) = source_unit_part {
-            if pragma.string.contains('^') {
+            //The parser keeps comments inside the text of a pragma value, a `^` in a comment is not a caret range
+            if utils::strip_comments(&pragma.string).contains('^') {
                 vulnerability_locations.insert(loc);
             }
         }
